@@ -101,6 +101,14 @@ class LoopAnalysis(object):
 
         return len(self.cg.loops)
 
+    def _zero(self, cls):
+        """Return zero of class `cls`; a phasor needs to know the
+        angular frequency of the analysis."""
+
+        if not isinstance(self.kind, str):
+            return cls(0, omega=self.kind)
+        return cls(0)
+
     def mesh_currents(self):
 
         if not self.cg.is_planar:
@@ -115,7 +123,7 @@ class LoopAnalysis(object):
 
     def _add_mesh_currents(self, loop, loops, node_names, mesh_currents):
 
-        current = Itype(self.kind)(0)
+        current = self._zero(Itype(self.kind))
 
         # Find opposing currents in other meshes flowing through cpt.
         for n, loop2 in enumerate(loops):
@@ -143,7 +151,7 @@ class LoopAnalysis(object):
 
     def _process_loop(self, loop, mesh_current, loops, mesh_currents):
 
-        result = Vtype(self.kind)(0)
+        result = self._zero(Vtype(self.kind))
 
         # Convert ['A', 'B', 'C'] to ['A', 'B', 'C', 'A'] to
         # avoid worrying about the wrap-around.
